@@ -1,0 +1,35 @@
+//go:build verif
+
+package main
+
+import (
+	"bytes"
+	"encoding/hex"
+
+	"github.com/moorara/algo/lexer"
+
+	ebnfparser "github.com/gardenbed/emerge/internal/ebnf/parser"
+)
+
+func init() {
+	register("parse_bytes", opParseBytes)
+}
+
+// opParseBytes runs Parse on a text given as hexadecimal bytes (JSON strings cannot carry malformed UTF-8) and
+// reports the tokens delivered before the end and the error.
+func opParseBytes(req request) response {
+	bs, err := hex.DecodeString(str(req, "text_hex"))
+	if err != nil {
+		return response{"outcome": "error", "stage": "hex", "error": err.Error()}
+	}
+	p, err := ebnfparser.New("f", bytes.NewReader(bs))
+	if err != nil {
+		return response{"outcome": "ok", "tokens": 0, "error": describeErr(err)}
+	}
+	n := 0
+	err = p.Parse(
+		func(*lexer.Token) error { n++; return nil },
+		func(int) error { return nil },
+	)
+	return response{"outcome": "ok", "tokens": n, "error": describeErr(err)}
+}
